@@ -22,6 +22,14 @@ def conventions(name):
         for k, v in C.HORTON2_CONVENTIONS.items():
             out[k] = [("" if lab.startswith("-") else "-") + lab.lstrip("-") for lab in reversed(v)]
         return out
+    if name == "partflip":
+        # a legal convention with a sign flip on every second label and the labels rotated by one position: the signs are not
+        # uniform over the basis, so they must travel with their functions through every re-ordering
+        out = {}
+        for k, v in C.HORTON2_CONVENTIONS.items():
+            lab = [("-" if i % 2 else "") + x for i, x in enumerate(v)]
+            out[k] = lab[1:] + lab[:1]
+        return out
     raise KeyError(name)
 
 
